@@ -39,7 +39,12 @@ pub struct Case {
     pub tag: String,
 }
 
-pub const POINT_ADV: [&str; 9] = ["pass", "rerandomised-representation", "negated", "doubled", "G", "off-curve(y+1)", "point-cancelling-the-peer-key", "point-at-infinity", "affine-as-decoded-from-the-wire"];
+pub const POINT_ADV: [&str; 10] = ["pass", "rerandomised-representation", "negated", "doubled", "G", "off-curve(y+1)", "point-cancelling-the-peer-key", "point-at-infinity", "affine-as-decoded-from-the-wire", "curve-coordinates-stored-with-Z=2"];
+
+/// deliveries that are no curve point at all: the receiving step must refuse them
+fn bad_point(code: u16) -> bool {
+    matches!(code, 5 | 7 | 9)
+}
 pub const HASH_ADV: [&str; 8] = ["pass", "flip-first-bit", "flip-last-bit", "all-zero", "forged-for-zero-shared-point", "two-byte-tag-variant", "other-confirmation-value", "byte-xor-ff"];
 
 fn adv_point(p: &Point, code: u16, seed: u64, cancel: Option<&String>) -> Point {
@@ -53,6 +58,13 @@ fn adv_point(p: &Point, code: u16, seed: u64, cancel: Option<&String>) -> Point 
             Ok(q) => q,
             Err(_) => lib_point_affine(&r),
         },
+        // the affine coordinates of the honest point left as they are, with Z set to 2: (X, Y) satisfies the affine equation,
+        // the object stands for (x/4, y/8), which is not on the curve
+        9 => {
+            let mut q = lib_point_affine(&r);
+            q.z = to_mont(&BigUint::from(2u32));
+            q
+        }
         0 => *p,
         1 => lib_point(&r, &SplitMix::new(seed, "c15lambda").nonzero_below(&pr.p)),
         2 => lib_point_affine(&pr.curve.neg(&r)),
@@ -73,6 +85,20 @@ fn adv_hash(h: &[u8; 32], code: u16) -> [u8; 32] {
         3 => o = [0; 32],
         4 | 5 | 6 => {} // replaced by the caller (needs the transcript)
         7 => o[0] ^= 0xff,
+        // 400 + j: several bytes changed so that the differences cancel under a sloppy comparison
+        c if c >= 400 => {
+            let edits: &[(usize, u8)] = match c - 400 {
+                0 => &[(0, 0x80), (1, 0x80)],
+                1 => &[(0, 0x80), (31, 0x80)],
+                2 => &[(3, 0x01), (17, 0xff)],
+                3 => &[(5, 0x40), (6, 0xc0)],
+                4 => &[(0, 0x40), (8, 0x40), (16, 0x40), (24, 0x40)],
+                _ => &[(10, 0x55), (20, 0x55)],
+            };
+            for (i, x) in edits {
+                o[*i] ^= x;
+            }
+        }
         // 100 + i: flip bit i
         c => {
             let i = (c - 100) as usize;
@@ -83,7 +109,9 @@ fn adv_hash(h: &[u8; 32], code: u16) -> [u8; 32] {
 }
 
 fn hash_adv_name(c: u16) -> &'static str {
-    if c >= 100 {
+    if c >= 400 {
+        "several-bytes-with-cancelling-differences"
+    } else if c >= 100 {
         "single-bit-flip"
     } else {
         HASH_ADV[c as usize]
@@ -146,7 +174,7 @@ pub fn eval(ctx: &Ctx, case: &Case) {
     }
     // --- deliver R_A to B
     let ra_del = adv_point(&ra_pt, adv[0], ctx.seed, cfg.cancel_a.as_ref());
-    let bad0 = adv[0] == 5 || adv[0] == 7;
+    let bad0 = bad_point(adv[0]);
     let ra_del_ref: Pt = if bad0 { None } else { ref_point(&ra_del) };
     let ra_tampered = bad0 || ra_del_ref != ref_point(&ra_pt);
     let mut q = vec![cand(&rb)];
@@ -213,7 +241,7 @@ pub fn eval(ctx: &Ctx, case: &Case) {
     }
     // --- deliver (R_B, S_B) to A
     let rb_del = adv_point(&rb_pt, adv[1], ctx.seed ^ 1, cfg.cancel_b.as_ref());
-    let bad1 = adv[1] == 5 || adv[1] == 7;
+    let bad1 = bad_point(adv[1]);
     let rb_del_ref: Pt = if bad1 { None } else { ref_point(&rb_del) };
     let rb_tampered = bad1 || rb_del_ref != ref_point(&rb_pt);
     let mut sb_del = adv_hash(&sb, adv[2]);
@@ -287,7 +315,7 @@ pub fn eval(ctx: &Ctx, case: &Case) {
         sa_del = if adv[3] == 5 { refmodels::sm3::sm3_cat(&[&[0x00, 0x03], &yv, &inner]) } else { a_ref.s_b };
     }
     let ra2_del = adv_point(&ra_pt, adv[4], ctx.seed ^ 2, cfg.cancel_a.as_ref());
-    let ra2_tampered = adv[4] == 5 || adv[4] == 7 || ref_point(&ra2_del) != ref_point(&ra_pt);
+    let ra2_tampered = bad_point(adv[4]) || ref_point(&ra2_del) != ref_point(&ra_pt);
     let r4 = guard(|| bob.exchange_4(sa_del, &ra2_del));
     ctx.call();
     let must_fail = sa_del != sa || ra2_tampered;
@@ -449,7 +477,7 @@ fn next_choices(adv: &[u16]) -> Vec<u16> {
     match adv.len() {
         0 => vec![0, 1, 2, 3, 4, 5, 7, 8],
         1 => {
-            if adv[0] == 5 || adv[0] == 7 {
+            if bad_point(adv[0]) {
                 vec![]
             } else {
                 vec![0, 1, 2, 3, 4, 5, 7, 8]
@@ -471,7 +499,7 @@ fn next_choices(adv: &[u16]) -> Vec<u16> {
 pub fn run(ctx: &Arc<Ctx>) {
     refmodels::selftest::run(&["sm3", "sm2"]).unwrap_or_else(|e| ctx.machinery_error(format!("reference self-test failed: {}", e)));
     let n = sm2::params().n.clone();
-    ctx.set_rule("stateright BFS over all man-in-the-middle choice sequences on the real Exchange objects: R_A->B, R_B->A in {pass, re-randomised Jacobian representation, affine as decoded from the wire, -R, 2R, G, off-curve, point at infinity}, S_B->A, S_A->B in {pass, first bit flipped, last bit flipped, all-zero, first byte xor ff, the value computed with the pre-standard two-byte tag, the other party's confirmation value}, R_A handed to exchange_4 in the 6 point choices; every subset of the messages altered x every kind, per configuration (key pairs {Annex, (1,n-2), (n-2,2), seeded} x IDs x klen). Honest paths additionally for every klen 1..=200 (thorough 600), ephemeral scalars searched so that a 1-byte key is 00 / a 2-byte key ends in 00, klen in {8160, 8191, 8192, 8193, 8225, 65537} and the nonce product r_A x r_B; every single-bit flip of S_B and of S_A on otherwise honest runs; keys crafted so that the peer's P + [x-bar]R' is the point at infinity for an adversary-chosen R' (the shared point is O: both roles must report failure, also against an S_B forged for a zero point). Invariant: honest deliveries (incl. re-randomised) give both sides the reference K (w=127), S_B, S_A (one-byte tags) and exchange_4 = true; any altered message makes the receiving step fail; off-curve points are refused by the step that receives them; a panic is a violation. ephemeral scalars fixed through the RNG seam. Honest runs with a static key equal to x-bar(R)*r (the peer's P + [x-bar]R is a doubling). Sessions: every sequence of <= 3 (thorough 4) runs over {honest, honest with roles swapped, abandoned after exchange_2, S_B altered, off-curve R_A} on one pair of Exchange objects - every honest run must yield the standard's values for its own ephemeral scalars.");
+    ctx.set_rule("stateright BFS over all man-in-the-middle choice sequences on the real Exchange objects: R_A->B, R_B->A in {pass, re-randomised Jacobian representation, affine as decoded from the wire, -R, 2R, G, off-curve, point at infinity}, S_B->A, S_A->B in {pass, first bit flipped, last bit flipped, all-zero, first byte xor ff, the value computed with the pre-standard two-byte tag, the other party's confirmation value}, R_A handed to exchange_4 in the 6 point choices; every subset of the messages altered x every kind, per configuration (key pairs {Annex, (1,n-2), (n-2,2), seeded} x IDs x klen). Honest paths additionally for every klen 1..=200 (thorough 600), ephemeral scalars searched so that a 1-byte key is 00 / a 2-byte key ends in 00, klen in {8160, 8191, 8192, 8193, 8225, 65537} and the nonce product r_A x r_B; every single-bit flip of S_B and of S_A, and 6 multi-byte changes whose differences cancel (xor-fold / sum-fold), on otherwise honest runs; keys crafted so that the peer's P + [x-bar]R' is the point at infinity for an adversary-chosen R' (the shared point is O: both roles must report failure, also against an S_B forged for a zero point). Invariant: honest deliveries (incl. re-randomised) give both sides the reference K (w=127), S_B, S_A (one-byte tags) and exchange_4 = true; any altered message makes the receiving step fail; off-curve points are refused by the step that receives them; a panic is a violation. ephemeral scalars fixed through the RNG seam. Honest runs with a static key equal to x-bar(R)*r (the peer's P + [x-bar]R is a doubling). Sessions: every sequence of <= 3 (thorough 4) runs over {honest, honest with roles swapped, abandoned after exchange_2, S_B altered, off-curve R_A} on one pair of Exchange objects - every honest run must yield the standard's values for its own ephemeral scalars.");
     let mut g = SplitMix::new(ctx.seed, "c15");
     let annex = ("81EB26E941BB5AF16DF116495F90695272AE2CD63D6C4AE1678418BE48230029", "785129917D45A9EA5437A59356B82338EAADDA6CEB199088F14AE10DEFA229B5", "D4DE15474DB74D06491C440D305E012400990F3E390C7E87153C12DB2EA60BB3", "7E07124814B309489125EAED101113164EBF0F3458C5BD88335C1F9D596243D6");
     let seeded: Vec<BigUint> = (0..4).map(|_| g.nonzero_below(&(&n - 2u32))).collect();
@@ -548,9 +576,26 @@ pub fn run(ctx: &Arc<Ctx>) {
             cases.push(Case { cfg: Config { da: da.clone(), db: db.clone(), ida: ida.clone(), idb: idb.clone(), klen: 16, ra: hexbig(a), rb: hexbig(b), cancel_a: None, cancel_b: None }, adv: vec![0, 0, 0, 0, 0], tag: { let _ = (an, bn); "honest/nonce-product".to_string() } });
         }
     }
+    // both parties under one identity, and both parties holding the same key pair (roles, not names or keys, order Z_A and Z_B)
+    {
+        let (da, db, ra, rb, _, _) = &keypairs[3];
+        for (ia, ib, dbb) in [(Some("same@example.com".to_string()), Some("same@example.com".to_string()), db.clone()), (None, None, db.clone()), (Some("same@example.com".to_string()), Some("same@example.com".to_string()), da.clone())] {
+            cases.push(Case { cfg: Config { da: da.clone(), db: dbb, ida: ia, idb: ib, klen: 16, ra: ra.clone(), rb: rb.clone(), cancel_a: None, cancel_b: None }, adv: vec![0, 0, 0, 0, 0], tag: "honest/same-identity".into() });
+        }
+    }
+    // curve coordinates stored under Z = 2 (an "affine equation first" validity test lets them through), to either party
+    for ci in 0..2usize.min(cfgs.len()) {
+        for adv in [vec![9u16], vec![0, 9], vec![1, 9], vec![0, 0, 0, 0, 9]] {
+            cases.push(Case { cfg: cfgs[ci * klens.len()].clone(), adv, tag: "coordinates-under-foreign-Z".into() });
+        }
+    }
     // every single-bit flip of S_B (A must refuse) and of S_A (B must not confirm) on otherwise honest runs
     for ci in 0..2usize.min(cfgs.len()) {
         for bit in 0..256u16 {
+            if bit < 6 {
+                cases.push(Case { cfg: cfgs[ci * klens.len()].clone(), adv: vec![0, 0, 400 + bit], tag: "cancelling-differences".into() });
+                cases.push(Case { cfg: cfgs[ci * klens.len()].clone(), adv: vec![0, 1, 0, 400 + bit, 0], tag: "cancelling-differences".into() });
+            }
             cases.push(Case { cfg: cfgs[ci * klens.len()].clone(), adv: vec![0, 0, 100 + bit], tag: "bitflip-sweep".into() });
             cases.push(Case { cfg: cfgs[ci * klens.len()].clone(), adv: vec![0, 1, 0, 100 + bit, 0], tag: "bitflip-sweep".into() });
         }
